@@ -1348,3 +1348,104 @@ func c07metaBlockStart(c *an.Ctx) {
 	r.AddSites(n)
 	r.Floor(3, "chunk-meta block starts")
 }
+
+func init() {
+	old := All["C07"].Run
+	All["C07"].Run = func(c *an.Ctx) {
+		old(c)
+		c07decoderAcceptsEveryScale(c)
+	}
+	All["C07"].Rules += " R12"
+	addLevel("C07", "the timestamp decoder does not reject a delta scale the encoder's scale table can produce (writer/reader ranges agree).")
+}
+
+// c07decoderAcceptsEveryScale — C07.R12.  The timestamp encoder divides the deltas by the largest
+// power of ten of its table (`scales`, up to 1e12) that divides them all and stores that scale
+// in the block.  A validity check in the decoder must accept every value of the table.
+func c07decoderAcceptsEveryScale(c *an.Ctx) {
+	const EN = "lib/encoding"
+	r := c.Rule("C07.R12", "K-TABLES(writer/reader)", EN+":(*Time).simple8bDecoding accepts every scale of the encoder's table")
+	// the table
+	var maxScale constant.Value
+	for _, pkg := range c.P.Pkgs {
+		if !strings.HasSuffix(pkg.PkgPath, EN) {
+			continue
+		}
+		for _, file := range pkg.Syntax {
+			ast.Inspect(file, func(m ast.Node) bool {
+				vs, ok := m.(*ast.ValueSpec)
+				if !ok || len(vs.Names) != 1 || vs.Names[0].Name != "scales" || len(vs.Values) != 1 {
+					return true
+				}
+				if cl, ok := vs.Values[0].(*ast.CompositeLit); ok {
+					for _, e := range cl.Elts {
+						if tv, ok := pkg.TypesInfo.Types[e]; ok && tv.Value != nil {
+							if maxScale == nil || constant.Compare(tv.Value, token.GTR, maxScale) {
+								maxScale = tv.Value
+							}
+						}
+					}
+				}
+				return false
+			})
+		}
+	}
+	f := fn(r, EN+":Time.simple8bDecoding")
+	if f == nil {
+		return
+	}
+	if maxScale == nil {
+		r.Fail("scales table", "-", "the encoder's table of delta scales (var scales) was not found")
+		return
+	}
+	r.AddSites(1)
+	// the scale variable: the factor the decoded deltas are multiplied with
+	var scaleVar types.Object
+	ast.Inspect(f.Body, func(m ast.Node) bool {
+		be, ok := m.(*ast.BinaryExpr)
+		if !ok || be.Op != token.MUL {
+			return true
+		}
+		for _, pair := range [][2]ast.Expr{{be.X, be.Y}, {be.Y, be.X}} {
+			if _, isIdx := ast.Unparen(pair[0]).(*ast.IndexExpr); isIdx {
+				if id, ok := ast.Unparen(pair[1]).(*ast.Ident); ok {
+					scaleVar = f.Info.Uses[id]
+				}
+			}
+		}
+		return true
+	})
+	if scaleVar == nil {
+		r.Fail(f.Name+": scale", c.P.Pos(f.Body.Pos()), "the multiplication of the decoded deltas by the block's scale was not found")
+		return
+	}
+	// upper-bound tests of a decoded header value against a constant below the table's maximum
+	ast.Inspect(f.Body, func(m ast.Node) bool {
+		be, ok := m.(*ast.BinaryExpr)
+		if !ok {
+			return true
+		}
+		var k constant.Value
+		var v ast.Expr
+		switch be.Op {
+		case token.GTR, token.GEQ:
+			if tv, ok := f.Info.Types[be.Y]; ok && tv.Value != nil {
+				k, v = tv.Value, be.X
+			}
+		case token.LSS, token.LEQ:
+			if tv, ok := f.Info.Types[be.X]; ok && tv.Value != nil {
+				k, v = tv.Value, be.Y
+			}
+		}
+		if k == nil || v == nil {
+			return true
+		}
+		if id, ok := ast.Unparen(v).(*ast.Ident); !ok || f.Info.Uses[id] != scaleVar {
+			return true
+		}
+		if constant.Compare(constant.ToFloat(k), token.LSS, constant.ToFloat(maxScale)) {
+			r.Fail(f.Name+": scale bounded by "+k.String(), c.P.Pos(be.Pos()), "the decoder tests the block's delta scale against %s, but the encoder's table goes up to %s: blocks whose deltas are multiples of a larger power of ten encode fine and cannot be read back", k.String(), maxScale.String())
+		}
+		return true
+	})
+}
